@@ -221,3 +221,22 @@ Definition stat_kind_consistentb : bool :=
 
 Lemma gen_stat_kind_consistent : stat_kind_consistentb = true.
 Proof. vm_compute. reflexivity. Qed.
+
+(** ** The hashed maps are keyed by the exact names (Caco/BuildDepKey.v)
+
+    [digest_map_keys]: the key expression of every assignment [deps[..] = ..]
+    in [buildNode] (the [Deps] of the action digest) and [m[..] = ..] in
+    [fileSet.fileNodes] ([FileNodes]).  Each is the loop variable that ranges
+    over the names themselves ([dep] over [n.deps], [f] over [fs.files]): no
+    function of the name, so no two names share an entry. *)
+Definition triple_eqb (a b : string * string * string) : bool :=
+  String.eqb (fst (fst a)) (fst (fst b)) && String.eqb (snd (fst a)) (snd (fst b)) && String.eqb (snd a) (snd b).
+
+Definition dep_key_is_nameb : bool :=
+  list_eqb triple_eqb digest_map_keys
+    [ ("Builder.buildNode", "deps", "dep"); ("fileSet.fileNodes", "m", "f"); ("fileSet.fileNodes", "m", "f") ] &&
+  existsb (fun t => String.eqb (fst t) "range" && String.eqb (snd t) "_, dep := range n.deps") sk_builder_buildNode &&
+  existsb (fun t => String.eqb (fst t) "range" && String.eqb (snd t) "_, f := range fs.files") sk_fileSet_fileNodes.
+
+Lemma gen_dep_key_is_name : dep_key_is_nameb = true.
+Proof. vm_compute. reflexivity. Qed.
